@@ -2,7 +2,10 @@ import Reduino.Lang.Tr
 /- C++ text of a translated program, line by line, in the emitter's own format (compared whitespace-normalised). -/
 namespace Reduino.Lang
 
-def BinOp.sym : BinOp → String | .add => "+" | .sub => "-" | .mul => "*"
+def BinOp.sym : BinOp → String | .add => "+" | .sub => "-" | .mul => "*" | .band => "&" | .bor => "|" | .bxor => "^"
+/-- the emitter's tokens for unary minus and `not` (the `_UN` table) -/
+def negSym : String := "-"
+def notSym : String := "!"
 def CmpOp.sym : CmpOp → String | .lt => "<" | .le => "<=" | .gt => ">" | .ge => ">=" | .eq => "==" | .ne => "!="
 
 def Expr.c : Expr → String
@@ -10,11 +13,11 @@ def Expr.c : Expr → String
   | .bool b => if b then "true" else "false"
   | .var x => x
   | .bin op a b => s!"({a.c} {op.sym} {b.c})"
-  | .neg a => s!"(-{a.c})"
+  | .neg a => s!"({negSym}{a.c})"
   | .cmp op a b => s!"({a.c} {op.sym} {b.c})"
   | .and a b => s!"({a.c} && {b.c})"
   | .or a b => s!"({a.c} || {b.c})"
-  | .not a => s!"(!{a.c})"
+  | .not a => s!"({notSym}{a.c})"
   | .ite c a b => s!"({c.c} ? {a.c} : {b.c})"
 
 def Ty.c : Ty → String | .int => "int" | .bool => "bool"
